@@ -175,6 +175,7 @@ func runC11(c *core.Ctx) {
 		}())
 	}
 
+	restartNoteIdx := -1 // number of notes collected when A's Restart returned
 	var cycleUfrag []string
 	gather := func() {
 		if err := A.A.GatherCandidates(); err == nil {
@@ -208,6 +209,7 @@ func runC11(c *core.Ctx) {
 			uf, pw := rig.Creds("A", 1)
 			if err := A.A.Restart(uf, pw); err == nil {
 				A.Ufrag, A.Pwd = uf, pw
+				restartNoteIdx = notes.Len()
 			}
 			uf, pw = rig.Creds("B", 1)
 			if err := B.A.Restart(uf, pw); err == nil {
@@ -292,8 +294,9 @@ func runC11(c *core.Ctx) {
 	}
 	// order and exactly-once: what each agent's handlers saw equals what one notifier enqueued
 	groups := map[string]map[any][]string{"state": {}, "candidate": {}, "pair": {}}
+	groupIdx := map[any][]int{}
 	var order = map[string][]any{}
-	for _, ev := range notes.Take() {
+	for noteIdx, ev := range notes.Take() {
 		e, ok := ev.V.(ice.VerifEvent)
 		if !ok {
 			continue
@@ -322,6 +325,7 @@ func runC11(c *core.Ctx) {
 			order[kind] = append(order[kind], e.Src)
 		}
 		groups[kind][e.Src] = append(groups[kind][e.Src], val)
+		groupIdx[e.Src] = append(groupIdx[e.Src], noteIdx)
 	}
 	for _, ag := range []*rig.AgentH{A, B} {
 		seen := map[string][]string{}
@@ -352,6 +356,39 @@ func runC11(c *core.Ctx) {
 				c.Failf("C11/delivery-differs-from-enqueue-order", "%s: %s handler saw %v; the notifiers enqueued %v", ag.Name, kind, seen[kind], cands)
 				return
 			}
+		}
+	}
+	// a cycle cancelled by Restart emits no nil: in A's candidate stream, an end-of-gathering marker enqueued
+	// after the Restart returned must be preceded by a candidate that was enqueued after it as well
+	if restartNoteIdx >= 0 {
+		var aSeen []string
+		for _, cand := range A.CandSeq() {
+			if cand == nil {
+				aSeen = append(aSeen, "<nil>")
+			} else {
+				aSeen = append(aSeen, fmt.Sprintf("%p", cand))
+			}
+		}
+		for _, src := range order["candidate"] {
+			g := groups["candidate"][src]
+			if !equalStrings(g, aSeen) {
+				continue
+			}
+			idx := groupIdx[src]
+			newCycleCand := false
+			for i, v := range g {
+				if idx[i] < restartNoteIdx {
+					continue
+				}
+				if v != "<nil>" {
+					newCycleCand = true
+				} else if !newCycleCand {
+					c.Failf("C11/nil-for-cancelled-cycle", "an end-of-gathering marker was enqueued after Restart had returned, before any candidate of the new cycle: it belongs to the cycle the Restart cancelled")
+					return
+				}
+			}
+			c.Probe("restart-cycle-checked")
+			break
 		}
 	}
 	// gather cycles (agent A): a candidate never follows the nil of its own cycle, never two nils in a row
